@@ -209,3 +209,402 @@ fc_find_exact(const fc_file *f, uint16_t tag, uint16_t ref)
             return &f->dd[i];
     return NULL;
 }
+
+/* ===================================================================== special elements */
+/* Description records, as published in the format description:
+ *   linked  : int16 1, int32 length, int32 block_length, int32 number_blocks, uint16 link_ref
+ *             block table (tag 20, link_ref): uint16 next_table_ref, number_blocks x uint16 block_ref (0 = never written)
+ *   external: int16 2, int32 length, int32 offset, int32 name_length, name
+ *   compress: int16 3, uint16 version, int32 length, uint16 comp_ref, uint16 model, uint16 coder, coder parameters
+ *   chunked : int16 5, int32 header_len, uint8 version, int32 flag, int32 elem_tot_len, int32 chunk_size, int32 nt_size,
+ *             uint16 tbl_tag, uint16 tbl_ref, uint16 sp_tag, uint16 sp_ref, int32 ndims, ndims x (int32 flag, dim_len, chunk_len),
+ *             int32 fill_len, fill bytes, [int16 comp special tag, int32 header len, comp header] */
+int
+fc_special_info(fc_file *f, const fc_dd *d, fc_special *s)
+{
+    memset(s, 0, sizeof *s);
+    if (!fc_is_special(d->tag))
+        return 0;
+    if (d->len < 2 || d->off < 0 || (long)d->off + d->len > f->size)
+        return -1;
+    const uint8_t *p = f->b + d->off, *end = p + d->len;
+    s->special       = (int16_t)be16(p);
+    p += 2;
+    switch (s->special) {
+        case FC_SPECIAL_LINKED:
+            if (end - p < 14)
+                return -1;
+            s->logical_len = be32(p);
+            s->blk_len     = be32(p + 4);
+            s->num_blk     = be32(p + 8);
+            s->link_ref    = be16(p + 12);
+            return 0;
+        case FC_SPECIAL_EXT: {
+            if (end - p < 12)
+                return -1;
+            s->logical_len = be32(p);
+            s->ext_off     = be32(p + 4);
+            long nl        = be32(p + 8);
+            if (nl < 0 || nl > (long)sizeof s->ext_name - 1 || end - (p + 12) < nl)
+                return -1;
+            memcpy(s->ext_name, p + 12, (size_t)nl);
+            s->ext_name[nl] = 0;
+            return 0;
+        }
+        case FC_SPECIAL_COMP: {
+            if (end - p < 12)
+                return -1;
+            s->logical_len = be32(p + 2);
+            s->comp_ref    = be16(p + 6);
+            s->model_type  = be16(p + 8);
+            s->coder_type  = be16(p + 10);
+            p += 12;
+            int np = 0;
+            if (s->coder_type == 2) { /* nbit: nt, sign_ext, fill_one, start_bit, bit_len */
+                if (end - p < 16)
+                    return -1;
+                s->coder_params[0] = be32(p);
+                s->coder_params[1] = be16(p + 4);
+                s->coder_params[2] = be16(p + 6);
+                s->coder_params[3] = be32(p + 8);
+                s->coder_params[4] = be32(p + 12);
+                np                 = 5;
+            }
+            else if (s->coder_type == 3) { /* skipping huffman */
+                if (end - p < 8)
+                    return -1;
+                s->coder_params[0] = be32(p);
+                s->coder_params[1] = be32(p + 4);
+            }
+            else if (s->coder_type == 4) { /* deflate */
+                if (end - p < 2)
+                    return -1;
+                s->coder_params[0] = be16(p);
+            }
+            (void)np;
+            return 0;
+        }
+        case FC_SPECIAL_CHUNKED: {
+            if (end - p < 4 + 1 + 4 + 4 + 4 + 4 + 2 + 2 + 2 + 2 + 4)
+                return -1;
+            long hlen = be32(p);
+            p += 4;
+            const uint8_t *hend = p + hlen;
+            if (hlen < 0 || hend > end)
+                return -1;
+            p += 1; /* version */
+            s->chunk_flag  = be32(p) & 0xff;
+            s->logical_len = be32(p + 4);
+            s->chunk_size  = be32(p + 8);
+            s->nt_size     = be32(p + 12);
+            s->chk_tbl_tag = be16(p + 16);
+            s->chk_tbl_ref = be16(p + 18);
+            s->ndims       = be32(p + 24);
+            p += 28;
+            if (s->ndims < 1 || s->ndims > 32 || end - p < 12L * s->ndims + 4)
+                return -1;
+            for (int i = 0; i < s->ndims; i++) {
+                s->dim_len[i]   = be32(p + 4);
+                s->chunk_len[i] = be32(p + 8);
+                p += 12;
+            }
+            s->fill_len = be32(p);
+            p += 4;
+            if (s->fill_len < 0 || s->fill_len > (long)sizeof s->fill || end - p < s->fill_len)
+                return -1;
+            memcpy(s->fill, p, (size_t)s->fill_len);
+            p += s->fill_len;
+            s->logical_len *= s->nt_size;
+            if (s->chunk_flag & 1) { /* compressed chunks: int16 sp tag, int32 len, comp header (version, len, ref, model, coder...) */
+                if (end - p < 6 + 12)
+                    return -1;
+                p += 6;
+                s->model_type = be16(p + 8);
+                s->coder_type = be16(p + 10);
+                s->chk_comp_type = s->coder_type;
+            }
+            return 0;
+        }
+        default:
+            return 0; /* other special kinds are not decoded */
+    }
+}
+
+static const fc_dd *
+first_block_dd(fc_file *f, const fc_special *s, uint16_t *firstref)
+{
+    const fc_dd *t = fc_find_exact(f, FC_TAG_LINKED, s->link_ref);
+    if (!t || t->len < 2 + 2 * s->num_blk || t->off < 0)
+        return NULL;
+    *firstref = be16(f->b + t->off + 2);
+    return *firstref ? fc_find_exact(f, FC_TAG_LINKED, *firstref) : NULL;
+}
+
+uint8_t *
+fc_stored_bytes(fc_file *f, const fc_dd *d, long *len, fc_extent *ext, int maxext, int *next)
+{
+    fc_special s;
+    int        ne = 0;
+    if (next)
+        *next = 0;
+    if (!fc_is_special(d->tag)) {
+        if (d->len < 0 || d->off < 0)
+            return NULL;
+        uint8_t *b = malloc((size_t)(d->len > 0 ? d->len : 1));
+        memcpy(b, f->b + d->off, (size_t)d->len);
+        *len = d->len;
+        if (ext && maxext > 0) {
+            ext[0].off = d->off, ext[0].len = d->len, ext[0].external = 0;
+            ne = 1;
+        }
+        if (next)
+            *next = ne;
+        return b;
+    }
+    if (fc_special_info(f, d, &s) != 0) {
+        fc_error(f, "(%u,%u): malformed description record", d->tag, d->ref);
+        return NULL;
+    }
+    if (s.special == FC_SPECIAL_LINKED) {
+        if (s.logical_len < 0 || s.blk_len <= 0 || s.num_blk <= 0) {
+            fc_error(f, "(%u,%u): linked-block header fields out of range (len %ld blk %ld n %d)", d->tag, d->ref, s.logical_len, s.blk_len, s.num_blk);
+            return NULL;
+        }
+        uint8_t *b = calloc(1, (size_t)(s.logical_len > 0 ? s.logical_len : 1));
+        long     pos = 0;
+        uint16_t tref = s.link_ref;
+        int      first = 1, tables = 0;
+        while (pos < s.logical_len) {
+            if (tref == 0)
+                break; /* rest never written: zeros */
+            const fc_dd *t = fc_find_exact(f, FC_TAG_LINKED, tref);
+            if (!t || t->off < 0 || t->len < 2 + 2 * s.num_blk) {
+                fc_error(f, "(%u,%u): block table (20,%u) missing or too short", d->tag, d->ref, tref);
+                free(b);
+                return NULL;
+            }
+            if (++tables > 100000) {
+                fc_error(f, "(%u,%u): block table chain does not end", d->tag, d->ref);
+                free(b);
+                return NULL;
+            }
+            const uint8_t *tp = f->b + t->off;
+            for (int i = 0; i < s.num_blk && pos < s.logical_len; i++) {
+                uint16_t bref = be16(tp + 2 + 2 * i);
+                long     blen = s.blk_len;
+                const fc_dd *bd = bref ? fc_find_exact(f, FC_TAG_LINKED, bref) : NULL;
+                if (bref && !bd) {
+                    fc_error(f, "(%u,%u): block (20,%u) referenced by table (20,%u) does not exist", d->tag, d->ref, bref, tref);
+                    free(b);
+                    return NULL;
+                }
+                if (first) {
+                    /* the first block keeps the length the element had when it became linked */
+                    if (bd)
+                        blen = bd->len;
+                    first = 0;
+                }
+                long take = blen < s.logical_len - pos ? blen : s.logical_len - pos;
+                if (bd && bd->off >= 0) {
+                    long have = bd->len < take ? bd->len : take;
+                    memcpy(b + pos, f->b + bd->off, (size_t)have);
+                    if (ext && ne < maxext) {
+                        ext[ne].off = bd->off, ext[ne].len = bd->len, ext[ne].external = 0;
+                        ne++;
+                    }
+                }
+                pos += take;
+            }
+            tref = be16(tp);
+        }
+        s.first_len = 0;
+        *len        = s.logical_len;
+        if (next)
+            *next = ne;
+        return b;
+    }
+    if (s.special == FC_SPECIAL_EXT) {
+        long     esz = 0;
+        uint8_t *eb  = f->ext_open ? f->ext_open(s.ext_name, &esz) : NULL;
+        if (!eb) {
+            fc_error(f, "(%u,%u): external file '%s' not found", d->tag, d->ref, s.ext_name);
+            return NULL;
+        }
+        if (s.ext_off < 0 || s.logical_len < 0 || s.ext_off + s.logical_len > esz) {
+            fc_error(f, "(%u,%u): external file '%s' has %ld bytes, element needs offset %ld + length %ld", d->tag, d->ref, s.ext_name, esz, s.ext_off,
+                     s.logical_len);
+            free(eb);
+            return NULL;
+        }
+        uint8_t *b = malloc((size_t)(s.logical_len > 0 ? s.logical_len : 1));
+        memcpy(b, eb + s.ext_off, (size_t)s.logical_len);
+        free(eb);
+        *len = s.logical_len;
+        if (ext && maxext > 0) {
+            ext[0].off = s.ext_off, ext[0].len = s.logical_len, ext[0].external = 1;
+            ne = 1;
+        }
+        if (next)
+            *next = ne;
+        return b;
+    }
+    if (s.special == FC_SPECIAL_COMP) {
+        const fc_dd *cd = fc_find(f, FC_TAG_COMPRESSED, (uint16_t)s.comp_ref);
+        if (!cd) {
+            fc_error(f, "(%u,%u): compressed data element (40,%d) does not exist", d->tag, d->ref, s.comp_ref);
+            return NULL;
+        }
+        return fc_stored_bytes(f, cd, len, ext, maxext, next);
+    }
+    return NULL;
+}
+
+/* ---- independent decoders ---- */
+static uint8_t *
+rle_decode(const uint8_t *in, long n, long outlen)
+{
+    /* run-length scheme of the format: control byte c; c & 0x80 -> run of (c & 0x7f) + 3 copies of the next byte,
+       else (c + 1) literal bytes follow */
+    uint8_t *o = malloc((size_t)(outlen > 0 ? outlen : 1));
+    long     ip = 0, op = 0;
+    while (op < outlen && ip < n) {
+        int c = in[ip++];
+        if (c & 0x80) {
+            int cnt = (c & 0x7f) + 3;
+            if (ip >= n) {
+                free(o);
+                return NULL;
+            }
+            uint8_t v = in[ip++];
+            for (int i = 0; i < cnt && op < outlen; i++)
+                o[op++] = v;
+        }
+        else {
+            int cnt = c + 1;
+            for (int i = 0; i < cnt && op < outlen; i++) {
+                if (ip >= n) {
+                    free(o);
+                    return NULL;
+                }
+                o[op++] = in[ip++];
+            }
+        }
+    }
+    if (op < outlen) {
+        free(o);
+        return NULL;
+    }
+    return o;
+}
+
+#include <zlib.h>
+static uint8_t *
+deflate_decode(const uint8_t *in, long n, long outlen)
+{
+    uint8_t *o = malloc((size_t)(outlen > 0 ? outlen : 1));
+    z_stream z;
+    memset(&z, 0, sizeof z);
+    if (inflateInit(&z) != Z_OK) {
+        free(o);
+        return NULL;
+    }
+    z.next_in   = (Bytef *)in;
+    z.avail_in  = (uInt)n;
+    z.next_out  = o;
+    z.avail_out = (uInt)outlen;
+    int rc      = inflate(&z, Z_FINISH);
+    long got    = (long)z.total_out;
+    inflateEnd(&z);
+    if ((rc != Z_STREAM_END && rc != Z_OK && rc != Z_BUF_ERROR) || got < outlen) {
+        free(o);
+        return NULL;
+    }
+    return o;
+}
+
+static uint8_t *
+nbit_decode(const uint8_t *in, long n, long outlen, const int *prm)
+{
+    /* prm: nt, sign_ext, fill_one, start_bit, bit_len; values are stored MSB first, bit_len bits each, packed */
+    int size = (prm[0] & 0xfff) == 20 || (prm[0] & 0xfff) == 21 || (prm[0] & 0xfff) == 3 || (prm[0] & 0xfff) == 4 ? 1
+               : (prm[0] & 0xfff) == 22 || (prm[0] & 0xfff) == 23                                                  ? 2
+               : (prm[0] & 0xfff) == 24 || (prm[0] & 0xfff) == 25 || (prm[0] & 0xfff) == 5                          ? 4
+                                                                                                                    : 0;
+    if (!size || outlen % size)
+        return NULL;
+    int  start = prm[3], blen = prm[4], bits = size * 8, lo = start - blen + 1;
+    long nvals = outlen / size;
+    if (blen < 1 || start >= bits || lo < 0 || (nvals * blen + 7) / 8 > n)
+        return NULL;
+    uint8_t *o   = malloc((size_t)(outlen > 0 ? outlen : 1));
+    long     bp  = 0;
+    uint32_t all = bits >= 32 ? 0xffffffffu : ((1u << bits) - 1u);
+    for (long v = 0; v < nvals; v++) {
+        uint32_t field = 0;
+        for (int i = 0; i < blen; i++, bp++)
+            field = (field << 1) | ((in[bp >> 3] >> (7 - (bp & 7))) & 1u);
+        uint32_t fm   = (blen >= 32 ? 0xffffffffu : ((1u << blen) - 1u)) << lo;
+        uint32_t low  = lo > 0 ? ((1u << lo) - 1u) : 0;
+        uint32_t high = all & ~(fm | low);
+        uint32_t r    = (field << lo) & fm;
+        if (prm[2])
+            r |= low;
+        if (prm[1]) {
+            if ((field >> (blen - 1)) & 1u)
+                r |= high;
+        }
+        else if (prm[2])
+            r |= high;
+        for (int b = 0; b < size; b++)
+            o[v * size + b] = (uint8_t)(r >> (8 * (size - 1 - b)));
+    }
+    return o;
+}
+
+uint8_t *
+fc_logical_bytes(fc_file *f, const fc_dd *d, long *len, int *unsupported)
+{
+    fc_special s;
+    if (unsupported)
+        *unsupported = 0;
+    if (!fc_is_special(d->tag))
+        return fc_stored_bytes(f, d, len, NULL, 0, NULL);
+    if (fc_special_info(f, d, &s) != 0) {
+        fc_error(f, "(%u,%u): malformed description record", d->tag, d->ref);
+        return NULL;
+    }
+    if (s.special == FC_SPECIAL_LINKED || s.special == FC_SPECIAL_EXT)
+        return fc_stored_bytes(f, d, len, NULL, 0, NULL);
+    if (s.special == FC_SPECIAL_COMP) {
+        long     clen = 0;
+        uint8_t *c    = fc_stored_bytes(f, d, &clen, NULL, 0, NULL);
+        if (!c)
+            return NULL;
+        uint8_t *o = NULL;
+        switch (s.coder_type) {
+            case 0: /* none */
+                if (clen >= s.logical_len) {
+                    o = malloc((size_t)(s.logical_len > 0 ? s.logical_len : 1));
+                    memcpy(o, c, (size_t)s.logical_len);
+                }
+                break;
+            case 1: o = rle_decode(c, clen, s.logical_len); break;
+            case 2: o = nbit_decode(c, clen, s.logical_len, s.coder_params); break;
+            case 4: o = deflate_decode(c, clen, s.logical_len); break;
+            default:
+                if (unsupported)
+                    *unsupported = 1;
+                free(c);
+                return NULL;
+        }
+        free(c);
+        if (!o)
+            fc_error(f, "(%u,%u): compressed stream (coder %d, %ld bytes) does not decode to the recorded length %ld", d->tag, d->ref, s.coder_type, clen,
+                     s.logical_len);
+        *len = s.logical_len;
+        return o;
+    }
+    if (unsupported)
+        *unsupported = 1;
+    return NULL;
+}
